@@ -329,6 +329,10 @@ class C04(RunSpec):
             p["levels"] = [1, 2, 2, 3]
             p["boxes"] = ["sym", "asym", "decimal"]
             p["stacks"] = False
+        if idx % 20 == 11:
+            # an objective that is infinite in the good direction somewhere: the best must still be reported as such
+            p = {"dim": (2, 2), "n_levels": 1, "root": _cycle(["sea", "de", "lhs", "sobol", "ga", "de_dither"], idx // 20), "fam": "pit",
+                 "maximize": bool((idx // 20) % 2), "gscs": ["melimit"], "stacks": False, "boxes": ["sym", "asym"]}
         if idx % 6 == 5:
             p = {"kind": "minimize", "dim": (2, 4), "pair": True}
         return p
@@ -345,6 +349,7 @@ class C04(RunSpec):
             ("direction.max", 10, "maximisation runs"),
             ("C04.best_ever_not_in_any_current_population", 1, "best-ever individual no longer in any current population"),
             ("C04.budget_pairs", 1, "budget pairs"),
+            ("objective.pit", 2, "objective with good-direction infinite values"),
             ("C04.best_ever_first_observed_around_first_true", 10, "runs whose best-ever value was first observed in the last generations before / after the GSC became true"),
         ]
 
